@@ -582,6 +582,23 @@ Section Proofs.
     intros p n. destruct (H3 p n) as [_ H]. rewrite H, qty_new. lia.
   Qed.
 
+  (* the fee re-check at the end of the change paths reads the state and may fail: it changes nothing *)
+  Lemma check_fee_after_change_spec P : hoare WF P (check_fee_after_change orc) (fun _ s => P s).
+  Proof.
+    unfold check_fee_after_change. apply hoare_get_bind. intros s0.
+    assert (G : hoare WF (fun s => s = s0 /\ P s)
+                  (match s_fee s0 with
+                   | Some fee => bindM (askF orc s0) (fun mf => if fee <? mf then lift Err else ret tt)
+                   | None => ret tt
+                   end) (fun _ s => P s)).
+    { destruct (s_fee s0).
+      - apply hoare_askF_bind. intros mf _. apply hoare_if; intros _; [apply hoare_fail; discriminate|].
+        apply hoare_ret'. intros s _ [_ Ps]. exact Ps.
+      - apply hoare_ret'. intros s _ [_ Ps]. exact Ps. }
+    destruct (s_fee_request s0); try exact G.
+    apply hoare_ret'. intros s _ [_ Ps]. exact Ps.
+  Qed.
+
   Lemma asset_branch_spec fuel addr extra rq ti to fee ce :
     value_wf ti -> value_wf to -> value_checked_sub ti to = Ok ce -> aligned rq fee -> fee < two64 ->
     hoare WF (fun s => s_fee_request s = rq /\ open_balance s ce)
@@ -634,7 +651,7 @@ Section Proofs.
         * apply hoare_ret'. intros s _ [F OB]. destruct (value_is_zero_sem _ Z) as [Zc Zq].
           eapply balanced_of_fee; eassumption.
         * apply top_up_last_spec. exact Wr2.
-      + intros u. apply hoare_ret'. auto.
+      + intros u. eapply hoare_bind; [apply check_fee_after_change_spec|]. intros u2. apply hoare_ret'. auto.
   Qed.
 
   (* ----------------------------------------------------------------------------------------- *)
@@ -687,7 +704,8 @@ Section Proofs.
       apply set_final_fee_aligned. rewrite Erq. apply aligned_add; assumption. }
     apply hoare_lift_bind. intros amount Ea.
     destruct (sub_new_ok _ _ _ Wce Lnf Ea) as [Hle2 [Hc2 [Hq2 Wa]]].
-    eapply hoare_bind with (Q := fun _ s => balanced s); [|intros u; apply hoare_ret'; auto].
+    eapply hoare_bind with (Q := fun _ s => balanced s);
+      [|intros u; eapply hoare_bind; [apply check_fee_after_change_spec|]; intros u2; apply hoare_ret'; auto].
     apply add_output_spec; [exact Wa|].
     intros s _ [F OB]. exists (fee + ffc). split; [apply get_fee_if_set_some; exact F|].
     apply (open_balance_closed _ (fee + ffc) (value_new (fee + ffc))); [|reflexivity | intros; apply qty_new].
